@@ -473,6 +473,13 @@ def _as_constant_array(t: Union["Tensor", np.ndarray]) -> np.ndarray:
     return t
 
 
+def _null_grads_of_view_family(tensor: "Tensor"):
+    """Nulls the gradient of ``tensor`` and of all of its (nested) views."""
+    tensor.null_grad()
+    for child in tensor._view_children:
+        _null_grads_of_view_family(child)
+
+
 class Tensor:
     """A numpy-array-like object capable of serving as a node in a computational
     graph that supports back-propagation of derivatives via the chain rule.
@@ -1686,6 +1693,10 @@ class Tensor:
         if self._base is not None and not self._base._view_children:
             self._base = None
 
+        # The update invalidates the gradient of every tensor that shares
+        # memory with the target, not only that of the target itself
+        _null_grads_of_view_family(self if self.base is None else self.base)
+
         graph = _dup.DuplicatingGraph(self if self.base is None else self.base)
 
         # Create copy of base so that mutation has no impact on the
@@ -1915,6 +1926,9 @@ class Tensor:
         # raise here if the shape is not compatible
         self.data.shape = newshape
         self.data.shape = old_shape
+
+        # reshaping in-place invalidates the gradients of self and its views
+        _null_grads_of_view_family(self)
 
         # create placeholders for self and all of its view-children
         graph = _dup.DuplicatingGraph(self)
